@@ -52,6 +52,7 @@ type Job struct {
 	MaxPaths   int               `json:"max_paths"`
 	MaxSteps   int               `json:"max_steps"`
 	OblCapMs   int               `json:"obl_cap_ms"`
+	MaxWallMs  int               `json:"max_wall_ms"`
 	Concrete   map[string]string `json:"concrete"` // self-test: variable values, no symbols
 }
 
@@ -146,6 +147,7 @@ type Interp struct {
 	concrete     bool
 	trace        []string
 	inputs       []*term.Term
+	deadline     time.Time
 	marshalDepth int
 	unmarshalTop map[*Value]int
 }
@@ -279,7 +281,7 @@ func (in *Interp) feasMode() smt.Mode {
 		im = "bv"
 	}
 	if in.job.Mode == "real" {
-		return smt.Mode{Float: "real", Int: "int"}
+		return smt.Mode{Float: "real", Int: "int", Lift: true}
 	}
 	return smt.Mode{Float: "fpuf", Int: im}
 }
@@ -290,7 +292,7 @@ func (in *Interp) preciseMode() smt.Mode {
 		im = "bv"
 	}
 	if in.job.Mode == "real" {
-		return smt.Mode{Float: "real", Int: "int"}
+		return smt.Mode{Float: "real", Int: "int", Lift: true}
 	}
 	return smt.Mode{Float: "fp", Int: im}
 }
@@ -350,8 +352,15 @@ func (in *Interp) account(r smt.Result) {
 	in.queries++
 }
 
+func (in *Interp) overBudget() bool {
+	return !in.deadline.IsZero() && time.Now().After(in.deadline)
+}
+
 // feasible asks whether pc ∧ c has a model (unknown counts as feasible).
 func (in *Interp) feasible(c *term.Term) bool {
+	if in.overBudget() {
+		panic(pathEnd{"unwind", "job wall-clock budget exhausted"})
+	}
 	if c.IsConst() {
 		return c.BoolV()
 	}
@@ -682,6 +691,11 @@ func (in *Interp) check(label string, cond *term.Term) Obligation {
 	if in.concrete {
 		ob.Status = "candidate"
 		ob.Note = "concrete evaluation false"
+		return ob
+	}
+	if in.overBudget() {
+		ob.Status = "inconclusive"
+		ob.Note = "job wall-clock budget exhausted"
 		return ob
 	}
 	neg := term.Not(cond)
@@ -1093,9 +1107,13 @@ func (in *Interp) RunJob(job Job) *JobRes {
 		in.cfg.MaxSteps = job.MaxSteps
 	}
 	defer func() { in.cfg.MaxSteps = saveSteps }()
+	in.deadline = time.Time{}
+	if job.MaxWallMs > 0 {
+		in.deadline = t0.Add(time.Duration(job.MaxWallMs) * time.Millisecond)
+	}
 	id := 0
 	for len(in.work) > 0 {
-		if id >= maxPaths {
+		if id >= maxPaths || in.overBudget() {
 			res.Truncated = true
 			break
 		}
